@@ -148,3 +148,14 @@ Proof.
   split; [cbn; lra|]. split; [exact E|]. split; [lra|]. split; [lra|].
   change (el_a (make_ellipsoid ROps 6378137 (6356752314 * / 1000))) with 6378137. nra.
 Qed.
+
+(* ---- syntactic tie of the forward map to the current source (gen/SrcFuns.v is regenerated from the clang AST of
+   src/geodesy/ECEFConverter.cpp on every run) ---- *)
+From Romea Require Import SrcTie.
+From Romea.gen Require Import SrcFuns.
+
+Theorem C01_source_tie_toECEF : forall (el : ellipsoid (T:=R)) (g : geodetic (T:=R)),
+  src_toECEF ROps (g_lon g) (g_lat g) (g_alt g) (el_a el) (el_e2 el)
+  = (vx (toECEF ROps el g), vy (toECEF ROps el g), vz (toECEF ROps el g)).
+Proof. exact tie_toECEF. Qed.
+Print Assumptions C01_source_tie_toECEF.
